@@ -42,6 +42,13 @@ import (
 //	        byte before its end): it stays connected but does not read, the client (write deadline shortened between
 //	        sends by assignment to Timeout) hands over frames of 0.3..3 MiB until a write deadline expires in the middle
 //	        of a frame; the collector resumes at once or after the client has gone on; direct mode and SendAndClear
+//	idle    IDLE PERIODS before the next send, longer than the client's own timers: (worker) the queue stays empty for
+//	        longer than the drainer's poll (queueMaxWaitTime, a constant 5 s: the drainer's wait times out and it goes
+//	        round its loop, 1..2 times), optionally the peer goes away or the default license changes meanwhile, then a
+//	        burst of packs from one producer / several producers; (direct, SendAndClear) a SHORT write deadline
+//	        (Timeout by assignment, 300..500 ms) is in force on a healthy connection and the client stays idle for
+//	        longer than it before frames of every size class (small, around and above the 2 MiB writer buffer,
+//	        batches that overflow the writer in the middle of a frame) are handed over
 //
 // Every generator hands its packs over through all public entry points (Send, SendFlush(false), SendFlush(true)) and
 // with plain and decorated per-send options; direct, fault, sac and worker also change the configuration between
@@ -111,6 +118,7 @@ func Run(c *core.Ctx) error {
 	run(tg, 1, mk("wdial", c.Pick(4, 12), genWdial))
 
 	var js []job
+	js = append(js, mk("idle", c.Pick(5, 20), genIdle)...) // the worker cases idle for 6..12 s: first
 	js = append(js, mk("wout", c.Pick(1, 6), genWout)...) // slow (the client sleeps 5 s after a refused dial): first
 	js = append(js, mk("worker", c.Pick(4, 24), genWorker)...)
 	js = append(js, mk("wfull", c.Pick(3, 9), genWfull)...)
@@ -195,8 +203,11 @@ func genPacksFrom(sc *scenario, r *rand.Rand, next *int, senders []int, per int,
 				}
 			}
 			ps.via = r.Intn(3)
-			if r.Intn(4) == 0 {
+			if r.Intn(3) == 0 {
+				// decorated per-send options: the license in effect in every position among the others
 				ps.style = 1
+				sc.ndeco++
+				ps.decorate(r, sc.ndeco+sc.cas)
 			}
 			ps.expect()
 			out[i] = append(out[i], ps)
@@ -1248,4 +1259,166 @@ func (sc *scenario) sacOnce() bool {
 		return true
 	}
 	return err != nil
+}
+
+// ---------------------------------------------------------------- idle: idle periods longer than the client's timers
+
+// drainerPoll is how long the client's drainer waits for a pack before it goes round its loop (queueMaxWaitTime; a
+// constant of the client, not configurable).  An idle period is a plain wait of the scenario, not an ordering: if it
+// turns out too short (timer slop) the drainer's wait simply has not timed out -- detection is lost, nothing else.
+const drainerPoll = 5000 * time.Millisecond
+
+// waitWorkerSeq waits until the worker has flushed the pack `last` (the last one a sequential producer handed over
+// and the queue accepted) and holds a connection.  The drainer is a FIFO's single consumer: when it is done with the
+// last accepted pack it has nothing left, whatever happened to the packs before it -- a pack that was accepted and
+// never came out of the queue does not make this wait run into its bound, it is judged by the specification.
+func (sc *scenario) waitWorkerSeq(last *packSpec) {
+	if err := waitUntil(waitMax, func() bool {
+		return int(atomic.LoadInt32(&sc.flushedID)) == last.id && atomic.LoadInt32(&sc.connected) == 1 && sc.cl.Queue.Size() == 0
+	}); err != nil {
+		sc.note("the worker did not get to the last pack handed over")
+	}
+}
+
+func genIdle(r *rand.Rand, gen string, cas int) *scenario {
+	switch cas % 5 {
+	case 0, 3:
+		return genIdleWorker(r, gen, cas)
+	}
+	return genIdleDeadline(r, gen, cas)
+}
+
+// worker: the queue stays empty for longer than the drainer's poll, then packs come again.
+func genIdleWorker(r *rand.Rand, gen string, cas int) *scenario {
+	variant := (cas / 5) % 4 // 0: plain; 1: the peer goes away while idle; 2: two idle periods; 3: default license changed while idle
+	conc := cas%5 == 3 && (cas/5)%2 == 1
+	sc, err := newScenario(gen, cas, r, scConf{mode: "worker", qcap: 1000, nondet: true})
+	if err != nil {
+		return nil
+	}
+	sc.nsend = 1
+	sc.cutDesc = append(sc.cutDesc, fmt.Sprintf("worker/v%d/conc=%v", variant, conc))
+	// sequential producer: every entry point, plain and decorated options; returns the last accepted pack
+	seqBurst := func(n int, size func(r *rand.Rand) int) *packSpec {
+		var last *packSpec
+		for _, p := range sc.more(r, 0, n, size) {
+			if !sc.send(p) {
+				last = p
+			}
+		}
+		return last
+	}
+	sc.waitWorker()
+	if last := seqBurst(2+r.Intn(3), smallSize); last != nil {
+		sc.waitWorkerSeq(last)
+	}
+	periods := 1
+	if variant == 2 {
+		periods = 2
+	}
+	for k := 0; k < periods && len(sc.notes) == 0; k++ {
+		// idle: nothing is handed over for longer than the drainer waits for a pack
+		time.Sleep(drainerPoll + time.Duration(600+r.Intn(600))*time.Millisecond)
+		switch variant {
+		case 1:
+			sc.cutCurrent([]string{"closed", "reset"}[r.Intn(2)])
+		case 3:
+			sc.reconfStep(r, false, nil)
+		}
+		if conc && k == periods-1 {
+			// several producers at once, then one producer again (its last pack ends the wait)
+			sc.nsend = 3
+			sc.runAll(sc.batch(r, 3, 2+r.Intn(3), smallSize))
+		}
+		size := smallSize
+		if (cas/5)%3 == 2 {
+			size = mediumSize
+		}
+		if last := seqBurst(6+r.Intn(7), size); last != nil {
+			sc.waitWorkerSeq(last)
+		}
+	}
+	if len(sc.notes) == 0 {
+		if last := seqBurst(3, smallSize); last != nil {
+			sc.waitWorkerSeq(last)
+		}
+	}
+	return sc
+}
+
+// direct / SendAndClear: a short write deadline is in force on a healthy connection; the client stays idle for longer
+// than that deadline before the next frames.  The deadline is shortened by assignment to Timeout only while a
+// connection exists (no dial happens under it: Timeout is the dial timeout too) and is set back to calmDeadline as soon
+// as the client reports an error -- under machine load a short deadline may really expire (the specification takes that
+// as a stall of the peer: it can only cost detection).
+func genIdleDeadline(r *rand.Rand, gen string, cas int) *scenario {
+	mode := "direct"
+	if cas%5 == 2 {
+		mode = "sac"
+	}
+	style := (cas / 5) % 4 // 0: above the writer buffer; 1: every size class; 2: around the buffer size; 3: medium (batches overflow)
+	short := time.Duration(300+100*((cas/5)%3)) * time.Millisecond
+	sc, err := newScenario(gen, cas, r, scConf{mode: mode, qcap: 1000})
+	if err != nil {
+		return nil
+	}
+	sc.nsend = 1
+	sc.cutDesc = append(sc.cutDesc, fmt.Sprintf("deadline %v/style%d", short, style))
+	size := func(r *rand.Rand) int {
+		switch style {
+		case 0:
+			return 2<<20 + r.Intn(1<<20)
+		case 1:
+			return mixedSize(r)
+		case 2:
+			return []int{2097152 - 22 - 24, 2097152 - 22 - 23, 2097152 - 22 - 22, 2097152, 2097152 + 1, 60}[r.Intn(6)]
+		}
+		return 500<<10 + r.Intn(900<<10)
+	}
+	calm := true
+	// hand n packs over (sac: in one batch, drained by one SendAndClear); on an error the calm deadline comes back
+	hand := func(n int, sz func(r *rand.Rand) int) {
+		failed := false
+		for _, p := range sc.more(r, 0, n, sz) {
+			if sc.send(p) && mode == "direct" {
+				failed = true
+			}
+		}
+		if mode == "sac" {
+			failed = sc.sacOnce()
+		}
+		if failed || atomic.LoadInt32(&sc.connected) != 1 {
+			sc.cl.Timeout = calmDeadline
+			calm = true
+		}
+	}
+	sc.cl.Timeout = calmDeadline
+	hand(1+r.Intn(3), smallSize) // the dial, under the calm deadline
+	rounds := 2 + r.Intn(2)
+	for k := 0; k < rounds; k++ {
+		if atomic.LoadInt32(&sc.connected) == 1 {
+			sc.cl.Timeout = short
+			calm = false
+		}
+		if k > 0 || r.Intn(2) == 0 {
+			hand(1, smallSize) // a flush under the short deadline, then the idle period
+		}
+		if !calm {
+			time.Sleep(short + short/2 + time.Duration(r.Intn(150))*time.Millisecond)
+		}
+		n := 1
+		if mode == "sac" {
+			n = 2 + r.Intn(3)
+		}
+		hand(n, size)
+		if r.Intn(2) == 0 {
+			hand(1+r.Intn(2), smallSize)
+		}
+	}
+	sc.cl.Timeout = calmDeadline
+	hand(3, smallSize)
+	if mode == "sac" {
+		sc.drainAll()
+	}
+	return sc
 }
